@@ -37,6 +37,7 @@ package transaction
 
 // Commit/Rollback take effect at most once, release exactly the side that is owned, after the last storage access.
 //@ func (*TransactionImpl).Commit
+//@   nonblocking[C15]
 //@   requires TxInv(tx) && lockstate(tx.mu) == 0
 //@   releases tx.rwLock
 //@   ensures[C17,C04] TxInv(tx) && !tx.active
@@ -143,6 +144,7 @@ package transaction
 // ---- C03: the buffer captures keys and values at call time (fresh copies, equal content, nil-ness kept),
 // the last operation on a key wins, other keys are untouched.
 //@ func (*Buffer).Put
+//@   nonblocking[C15]
 //@   requires b != nil && b.operations != nil && lockstate(b.mu) == 0
 //@   ensures[C03] b.operations[bstr(key)] != nil && !b.operations[bstr(key)].IsDelete
 //@   ensures[C03] bstr(b.operations[bstr(key)].Key) == bstr(key) && bstr(b.operations[bstr(key)].Value) == bstr(value) && (b.operations[bstr(key)].Value == nil) == (value == nil)
